@@ -100,6 +100,12 @@ def main():
         conf = open(os.path.join(d, 'confirm.log')).read() if os.path.exists(os.path.join(d, 'confirm.log')) else ''
         mx = {}
         p = os.path.join(MX, i + '.txt')
+        matrix_from = 'current machinery'
+        if not os.path.exists(p) and os.path.exists(os.path.join(d, 'meta.json')):
+            try:
+                old = json.load(open(os.path.join(d, 'meta.json')))
+                mx = old.get('checks_exit_codes', {}); matrix_from = old.get('matrix_from') or 'an earlier version of the machinery (before the last engine changes); the target check was re-run, see official_run'
+            except Exception: pass
         if os.path.exists(p):
             for l in open(p):
                 a = l.split()
@@ -117,7 +123,7 @@ def main():
                     confirmation=dict(where="fresh scratch worktree of /repo (tools/confirm_all.sh), removed afterwards",
                                       demo_without_change=after('-- demo without'), suite_with_change=after('-- existing suite'), demo_with_change=after('-- demo with the change')),
                     checks_exit_codes=mx, caught_by=sorted(k for k, v in mx.items() if v == 1), no_verdict=sorted(k for k, v in mx.items() if v in (2, 3)),
-                    official_run=official,
+                    official_run=official, matrix_from=matrix_from,
                     ran="tools/confirm_all.sh; tools/seed_matrix.sh (every quick check with PVC_REPO=<worktree with the patch applied>); target check also run with the patch applied to /repo (git -C /repo apply; check; git -C /repo checkout -- .)")
         json.dump(meta, open(os.path.join(d, 'meta.json'), 'w'), indent=1)
         rows.append(meta)
